@@ -16,6 +16,8 @@ import copy
 from .hirq import walk, kind, peel
 
 MAX_NODES = 600
+SMALL_NODES = 160
+TINY_NODES = 40
 MAX_DEPTH = 3
 
 
@@ -56,9 +58,10 @@ def _renumber(n, off):
 
 
 class Inliner:
-    def __init__(self, crate, protected=()):
+    def __init__(self, crate, protected=(), multi=()):
         self.crate = crate
         self.protected = set(protected)
+        self.multi = set(multi)   # helpers in which the raw view located a violation: inlinable at several sites
         self.by_path = {}
         dup = set()
         for b in crate.bodies:
@@ -76,6 +79,7 @@ class Inliner:
     def _helpers(self):
         call_refs = {}
         value_refs = set()
+        callers_of = {}
         for b in self.crate.bodies:
             if b.get("body") is None:
                 continue
@@ -88,9 +92,11 @@ class Inliner:
                         callee_nodes.add(id(f))
                         call_refs.setdefault(f.get("path"), 0)
                         call_refs[f.get("path")] += 1
+                        callers_of.setdefault(f.get("path"), set()).add(b["path"])
                 elif k == "MethodCall" and n.get("path"):
                     call_refs.setdefault(n["path"], 0)
                     call_refs[n["path"]] += 1
+                    callers_of.setdefault(n["path"], set()).add(b["path"])
             for n in walk(b["body"]):
                 if n.get("k") == "Path" and n.get("res") == "def" and id(n) not in callee_nodes \
                         and n.get("path") in self.by_path:
@@ -101,8 +107,18 @@ class Inliner:
                 continue
             if "::tests::" in p or "::test::" in p:
                 continue
-            if p in value_refs or call_refs.get(p) != 1 or p in self.protected:
-                continue   # exactly one call site: the shape "a block was extracted into a helper" produces
+            refs = call_refs.get(p) or 0
+            if p in value_refs or refs < 1 or p in self.protected:
+                continue
+            # one call site: the shape "a block was extracted into a helper" produces; up to four call sites for a
+            # small helper: the shape "duplicated blocks were folded into one helper / a repeated condition became
+            # a predicate" produces
+            if refs > 1:
+                small = b.get("nodes", 0) <= SMALL_NODES and refs <= 4
+                tiny_predicate = b.get("nodes", 0) <= TINY_NODES and refs <= 4 and b.get("output") == "bool" \
+                    and bool(callers_of.get(p, set()) & self.multi)
+                if not ((small and p in self.multi) or tiny_predicate):
+                    continue
             if "::rules::visible::" in p or "::rules::hidden::" in p:
                 continue   # derive-generated rule functions are a call graph of their own, not helpers
             if b.get("nodes", 0) > MAX_NODES:
@@ -191,11 +207,123 @@ class Inliner:
         return [b for b in new_bodies if b["path"] not in gone], sorted(gone)
 
 
-def inlined_doc(crate, protected=()):
+# ------------------------------------------------------------------ Result / Option combinators as matches
+
+_COMB = {
+    "core::result::Result::map": ("Ok", "Err", "wrap-ok"),
+    "core::result::Result::map_err": ("Err", "Ok", "wrap-err"),
+    "core::result::Result::and_then": ("Ok", "Err", "value"),
+    "core::result::Result::or_else": ("Err", "Ok", "value"),
+    "core::result::Result::unwrap_or_else": ("Err", "Ok", "unwrap"),
+    "core::option::Option::map": ("Some", "None", "wrap-some"),
+    "core::option::Option::and_then": ("Some", "None", "value"),
+}
+
+
+def _ctor_path(name):
+    return ("core::result::Result::" if name in ("Ok", "Err") else "core::option::Option::") + name
+
+
+def _ctor_call(name, arg, ty, sp):
+    return {"k": "Call", "f": {"k": "Path", "res": "def", "dk": "Ctor(Variant, Fn)", "path": _ctor_path(name),
+                               "ctor": "Variant/Fn", "last": name, "sp": sp},
+            "args": [arg], "ty": ty, "sp": sp, "desugared": True}
+
+
+class Desugar:
+    """`r.map(|x| B)`  ==  `match r { Ok(x) => Ok(B), Err(e) => Err(e) }` and its siblings (map_err, and_then, or_else,
+    unwrap_or_else; Option::map / and_then), for closure literals.  A `return` inside the closure body becomes a
+    `break` out of a labelled block, as for inlined helpers."""
+
+    def __init__(self, start):
+        self.counter = start
+        self.sites = 0
+
+    def fresh(self):
+        self.counter += 1
+        return self.counter * 1000000 + 7
+
+    def rewrite(self, n):
+        p = n.get("path")
+        spec = _COMB.get(p)
+        if spec is None or len(n.get("args", [])) != 1:
+            return n
+        clo = peel(n["args"][0])
+        if kind(clo) != "Closure" or len(clo.get("params", [])) != 1:
+            return n
+        taken, other, mode = spec
+        sp = n.get("sp")
+        body = clo["body"]
+        if any(x.get("k") == "Ret" for x in _walk_no_closure(body)):
+            label = self.fresh()
+            for x in _walk_no_closure(body):
+                if x.get("k") == "Ret":
+                    x["k"] = "Break"
+                    x["target"] = label
+                    x["inl_ret"] = True
+            body = {"k": "Block", "id": label, "stmts": [], "expr": body, "ty": body.get("ty"), "sp": sp,
+                    "desugared": "closure"}
+        if mode.startswith("wrap"):
+            val = _ctor_call(taken, body, n.get("ty"), sp)
+        else:
+            val = body
+        taken_pat = {"k": "PTupleStruct", "res": "def", "dk": "Ctor(Variant, Fn)", "path": _ctor_path(taken),
+                     "ctor": "Variant/Fn", "last": taken, "pats": [clo["params"][0]], "sp": sp}
+        if other == "None":
+            other_pat = {"k": "PPath", "res": "def", "dk": "Ctor(Variant, Const)", "path": _ctor_path("None"),
+                         "ctor": "Variant/Const", "last": "None", "sp": sp}
+            other_val = {"k": "Path", "res": "def", "dk": "Ctor(Variant, Const)", "path": _ctor_path("None"),
+                         "ctor": "Variant/Const", "last": "None", "ty": n.get("ty"), "sp": sp}
+        else:
+            bid = self.fresh()
+            other_pat = {"k": "PTupleStruct", "res": "def", "dk": "Ctor(Variant, Fn)", "path": _ctor_path(other),
+                         "ctor": "Variant/Fn", "last": other,
+                         "pats": [{"k": "PBind", "id": bid, "name": "passed", "mode": "BindingMode(No, Not)", "sp": sp}], "sp": sp}
+            ref = {"k": "Path", "res": "local", "id": bid, "name": "passed", "last": "passed", "sp": sp}
+            other_val = ref if mode == "unwrap" else _ctor_call(other, ref, n.get("ty"), sp)
+        self.sites += 1
+        return {"k": "Match", "src": "match", "sty": n["recv"].get("ty", ""), "scrut": n["recv"],
+                "arms": [{"pat": taken_pat, "guard": None, "body": val, "sp": sp},
+                         {"pat": other_pat, "guard": None, "body": other_val, "sp": sp}],
+                "ty": n.get("ty"), "sp": sp, "exp": n.get("exp"), "desugared": p}
+
+    def run(self, root):
+        def rec(x):
+            if isinstance(x, dict):
+                for k2, v in list(x.items()):
+                    if isinstance(v, dict):
+                        nv = rec(v)
+                        if nv is not v:
+                            x[k2] = nv
+                    elif isinstance(v, list):
+                        for i, y in enumerate(v):
+                            if isinstance(y, dict):
+                                ny = rec(y)
+                                if ny is not y:
+                                    v[i] = ny
+                if x.get("k") == "MethodCall":
+                    return self.rewrite(x)
+            return x
+        return rec(root)
+
+
+def inlined_doc(crate, protected=(), multi=()):
     """A fact document (same shape as the driver's) of the helper-inlined view of `crate`."""
-    inl = Inliner(crate, protected)
+    inl = Inliner(crate, protected, multi)
     bodies, gone = inl.run()
+    ds = Desugar(inl.counter + 1000)
+    for b in bodies:
+        if b.get("body") is not None and not b.get("exp") and "::rules::visible::" not in b["path"] \
+                and "::rules::hidden::" not in b["path"] and b["path"] not in protected and b["path"] in multi:
+            if any(x.get("k") == "MethodCall" and x.get("path") in _COMB for x in walk(b["body"])):
+                if not any(b is o for o in crate.bodies):
+                    b["body"] = ds.run(b["body"])
+                else:
+                    nb = dict(b)
+                    nb["body"] = ds.run(copy.deepcopy(b["body"]))
+                    bodies[bodies.index(b)] = nb
     doc = dict(crate.doc)
     doc["bodies"] = bodies
     doc["inlined_helpers"] = gone
+    doc["desugared_combinators"] = ds.sites
     return doc
